@@ -97,6 +97,34 @@ def gen_dup_tree(rng, collide):
     return t
 
 
+ALIAS_TEXTS = ['GPL-2.0 or GPLv2', 'Expat and Apache-2.0 and MIT', 'Apache-2.0 and (GPLv2 or MIT or GPL-2.0) and Apache-2.0',
+               'GPL-2.0 with Classpath or MIT or GPLv2 with Classpath-exception-2.0', 'MIT License or MIT', 'GNU GPL 2.0 and Apache 2.0 and GPL-2.0',
+               'mit license and (expat or (apache 2.0 and APACHE-2.0))', 'foo bar or MIT or foo bar']
+
+
+def alias_licensing(le):
+    return le.Licensing([le.LicenseSymbol('GPL-2.0', aliases=('GPLv2', 'GNU GPL 2.0')), le.LicenseSymbol('MIT', aliases=('Expat', 'MIT License')),
+                         le.LicenseSymbol('Apache-2.0', aliases=('Apache 2.0',)),
+                         le.LicenseSymbol('Classpath-exception-2.0', aliases=('Classpath',), is_exception=True)])
+
+
+def alias_text_error(text, le):
+    L = alias_licensing(le)
+    try:
+        p = L.parse(text)
+    except le.ExpressionError:
+        return None
+    want = ref_dedup(enc_expr(p))
+    for arg, what in ((text, 'the text'), (p, 'its parse')):
+        try:
+            got = enc_expr(L.dedup(arg))
+        except Exception as ex:   # noqa
+            return 'dedup of %s raised %s: %s' % (what, type(ex).__name__, ex)
+        if got != want:
+            return 'dedup of %s is %s, the repeated operands of %s removed give %s' % (what, build_expr(got), p, build_expr(want))
+    return None
+
+
 def run(rep, tier, seed):
     le = imp()
     L = le.Licensing()
@@ -134,8 +162,20 @@ def run(rep, tier, seed):
         except le.ExpressionError:
             continue
         rep.case(('str', s), nontrivial=False)
-        if enc_expr(L.dedup(s)) != enc_expr(L.dedup(p)):
-            rep.violations.append({'key': 'string', 'kind': 'text', 'text': s, 'what': 'dedup(string) differs from dedup(parse(string))'})
+        try:
+            same = enc_expr(L.dedup(s)) == enc_expr(L.dedup(p))
+            why = 'dedup(string) differs from dedup(parse(string))'
+        except Exception as ex:   # noqa
+            same, why = False, 'dedup of a text that parses raised %s: %s' % (type(ex).__name__, ex)
+        if not same:
+            rep.violations.append({'key': 'string', 'kind': 'text', 'text': s, 'what': why})
+    # ... also over a table whose licenses have aliases and names of several words: one license spelled in two ways is one operand
+    for s_ in ALIAS_TEXTS:
+        rep.case(('str-table', s_), nontrivial=True)
+        rep.count('alias_texts')
+        err = alias_text_error(s_, le)
+        if err:
+            rep.violations.append({'key': 'string', 'kind': 'text-table', 'text': s_, 'what': err})
     # combine_expressions
     rels = RELS
     texts_pool = ['mit', 'gpl', 'mit', 'a or b', 'mit and gpl', 'gpl', 'x with y', '(mit)', 'MIT', ' mit ']
@@ -204,6 +244,13 @@ RELS = [('AND', 0), ('and', 0), ('And', 0), ('OR', 1), ('or', 1), ('oR', 1), ('x
 
 
 def replay(payload):
+    if payload.get('kind') == 'text-table':
+        err = alias_text_error(payload['text'], imp())
+        return err is None, err or 'dedup of the text is dedup of its parse'
+    return replay_other(payload)
+
+
+def replay_other(payload):
     le = imp()
     if payload.get('kind') == 'combine' and 'expressions' in payload:
         rel = [r for r, c in RELS if repr(r) == payload['relation']][0]
@@ -215,4 +262,15 @@ def replay(payload):
     if payload.get('kind') == 'tree':
         err, got, key = check_tree(payload['tree'], le.Licensing())
         return err is None, err or 'dedup matches the reference'
+    if payload.get('kind') == 'text':
+        L = le.Licensing()
+        try:
+            p_ = L.parse(payload['text'])
+        except le.ExpressionError:
+            return True, 'the text does not parse'
+        try:
+            ok = enc_expr(L.dedup(payload['text'])) == enc_expr(L.dedup(p_))
+            return ok, 'dedup(string) %s dedup(parse(string))' % ('equals' if ok else 'differs from')
+        except Exception as ex:   # noqa
+            return False, 'dedup of a text that parses raised %s: %s' % (type(ex).__name__, ex)
     return True, 'nothing to replay'
